@@ -31,7 +31,7 @@ RULE = ("bld.seq: sequences of 1-40 builder calls (add_source, add_name, add, ad
         "non-trivial = the run succeeds and either an id is returned twice (a string was interned again) or some source reads differently from its raw name (a root was applied); distinct = distinct case line")
 EXHAUSTIVE = {"quick": True, "thorough": True}
 
-SRC = ["a", "b", "a", "", "/abs", "http://x/y", "https://h/z", "dir/f.js", "é/x.js", "http", "//", "a/", "httpx:y"]
+SRC = ["a", "b", "a", "", "/abs", "http://x/y", "https://h/z", "dir/f.js", "é/x.js", "http", "//", "a/", "httpx:y", "webpack://pkg/b.js", "file:///c", "x://", "ftp://h/f"]
 NAMES = ["n", "m", "", "n", "foo"]
 ROOTS = ["r", "r/", "/", "", "http://cdn/", "r//", "/abs/", "https:", None, None]
 DIDS = ["000102030405060708090a0b0c0d0e0f", "00000000000000000000000000000000", "ffffffffffffffffffffffffffffffff", "~"]
